@@ -10,7 +10,7 @@ import numpy as np
 from gymnasium import spaces
 
 
-IMG = (6, 6, 3)      # H, W, C
+IMG = (6, 5, 3)      # H, W, C  (not square: an axis mix-up cannot go unnoticed)
 DICT_SPACE = spaces.Dict({"a": spaces.Box(-1.0, 1.0, (3,), np.float32), "b": spaces.Box(-1.0, 1.0, (2,), np.float32)})
 
 
@@ -29,11 +29,12 @@ def _reward(kind, a, t):
 class CountEnv:
     """plain (non-vectorised) Gymnasium-style environment"""
 
-    def __init__(self, log, ep_len=4, act="discrete", obs_dim=4, image=False, dictobs=False):
+    def __init__(self, log, ep_len=4, act="discrete", obs_dim=4, image=False, dictobs=False, mixed=False):
         self.log = log
         self.L = ep_len
         self.act = act
         self.dictobs = dictobs
+        self.mixed = mixed
         self.shape = IMG if image else (obs_dim,)        # image: channels LAST (the loop is run with swap_channels=True)
         self.observation_space = DICT_SPACE if dictobs else spaces.Box(-1.0, 1.0, self.shape, np.float32)
         self.action_space = _space(act)
@@ -59,21 +60,28 @@ class CountEnv:
         term = self.t >= self.L and self.t % 2 == 0
         trunc = self.t >= self.L and not term
         o = self._obs()
+        k = self.t
         if term or trunc:
             self.t = 0
+        if self.mixed:       # the numeric type of reward / flags differs from step to step (all legal for a Gymnasium env)
+            r = [float(r), np.float32(r), np.float64(r), int(4 * r) / 4][k % 4]
+            if k % 2:
+                return o.astype(np.float64), r, np.bool_(term), np.bool_(trunc), {}
         return o, r, bool(term), bool(trunc), {}
 
 
 class CountVecEnv:
     """vectorised environment (gymnasium.vector style interface, auto-reset), sub-env i has episode length L+i"""
 
-    def __init__(self, log, num_envs, ep_len=4, act="discrete", obs_dim=4, image=False, dictobs=False):
+    def __init__(self, log, num_envs, ep_len=4, act="discrete", obs_dim=4, image=False, dictobs=False, mixed=False):
         self.log = log
         self.num_envs = num_envs
         self.L = ep_len
         self.act = act
         self.d = obs_dim
         self.dictobs = dictobs
+        self.mixed = mixed
+        self.k = 0
         self.shape = IMG if image else (obs_dim,)
         self.single_observation_space = DICT_SPACE if dictobs else spaces.Box(-1.0, 1.0, self.shape, np.float32)
         self.single_action_space = _space(act)
@@ -103,6 +111,11 @@ class CountVecEnv:
         trunc = end & ~term
         o = self._obs()
         self.t[end] = 0
+        if self.mixed:       # dtypes of the returned arrays differ from step to step
+            self.k += 1
+            r = r.astype([np.float64, np.float32, np.float16][self.k % 3])
+            if self.k % 2:
+                return o.astype(np.float64), r, term.astype(np.int8), trunc.astype(np.uint8), {}
         return o, r, term, trunc, {}
 
 
